@@ -366,10 +366,29 @@ def s_literal_left(rng, nval):
     return _mk(prog, "literal_left_comparison", rng, nval, edges={"a": list(range(-6, 16))})
 
 
+def s_sel_same_typed(rng, nval):
+    """`cond : value` where the compared signal and the copied value share one signal type but come from different
+    producers (the decider must read each from its own colour), with the literal on either side and int variables."""
+    types = gen.Types(rng)
+    prog = [["input", "x", types.fresh(), rng.randint(-5, 15)], ["int", "k", ["n", rng.randint(-2, 9)]]]
+    prog.append(["sig", "dbl", ["b", rng.choice(["*", "+", "-"]), ["v", "x"], ["n", rng.randint(2, 5)]]])   # inherits x's type
+    for j in range(rng.randint(2, 4)):
+        lit = rng.choice([["n", rng.randint(-3, 12)], ["v", "k"]])
+        op = rng.choice(CMP_OPS)
+        subj = rng.choice([["v", "x"], ["v", "x"], ["v", "dbl"]])
+        val = ["v", "dbl"] if subj[1] == "x" else ["v", "x"]
+        cond = ["c", op, lit, subj] if rng.random() < 0.5 else ["c", op, subj, lit]
+        e = ["s", cond, val]
+        if rng.random() < 0.3:
+            e = ["b", "+", e, ["n", 1]]
+        prog.append(["sig", "r%d" % j, ["p", e, types.fresh()]])
+    return _mk(prog, "cond_value_same_type_two_producers", rng, nval, edges={"x": list(range(-6, 16))})
+
+
 STRATA = [
     (s_op_single, 6), (s_prec_pairs, 6), (s_power_chain, 1), (s_dag_distinct, 8), (s_dag_same, 2),
     (s_two_producers, 3), (s_self_both, 1), (s_wire_merge, 2), (s_wire_merge_repeat, 1), (s_logic_chain, 4), (s_logic_nearbool, 3), (s_unary, 1),
-    (s_proj, 2), (s_sel, 3), (s_const_heavy, 2), (s_untyped, 1), (s_literal_left, 1),
+    (s_proj, 2), (s_sel, 3), (s_sel_same_typed, 3), (s_const_heavy, 2), (s_untyped, 1), (s_literal_left, 1),
 ]
 
 
